@@ -485,4 +485,4 @@ package shimagent
 //@     invariant mapdom(srv.certs) == nokeys(srv.certs) && calls(Agent.List) == l0 + 1 && ret(Agent.List, l0, 1) == nil && keys == ret(Agent.List, l0, 0)
 //@     invariant condsOK(srv)
 //@     invariant forall(j, 0 <= j && j < len(keys), keys[j] != nil && keys[j] == listed(l0, j), keys[j])
-//@     invariant forall(j, 0 <= j && j <= rangeindex, hiddenBlob(kb(listed(l0, j))) ==> (sha(kb(listed(l0, j))) in dom(srv.upstreamSSHCACertCache)))
+//@     invariant forall(j, 0 <= j && j <= rangeindex#2, hiddenBlob(kb(listed(l0, j))) ==> (sha(kb(listed(l0, j))) in dom(srv.upstreamSSHCACertCache)))
